@@ -254,6 +254,11 @@ def c11_cast(a: ValueType, b: ValueType) -> tuple[ValueType, ValueType]:
         return a, b
     va = deepcopy(a)
     vb = deepcopy(b)
+    if not rank_match:
+        # The common type of differently sized operands is an integer, never a boolean.
+        # Otherwise, a CAST (instead of an ITE) is emitted for the bool -> integer conversion.
+        va.group &= ~VTGroup.BOOL
+        vb.group &= ~VTGroup.BOOL
 
     if sign_match:
         if va.bit_width < vb.bit_width:
